@@ -326,10 +326,19 @@ def prove_timeout_and_remove(src_root, ex: Explorer):
         install_env(it, ctx)
         mgr, emitted, sent, reqs, _ = mk_manager(it, ctx)
         tk = ctx.fresh_int('tk')
-        req = new(it, SMODEL, 'SearchRequest', ticket=Sym(tk, 'int'), query='q', results=[], timer=None)
+        # the handler runs INSIDE the task of the request's timer: cancelling that timer from here cancels the running activation, and the
+        # CancelledError is delivered at its next suspension (Timer.cancel -> task.cancel, C18.Timer.handle[start-cancel])
+        self_cancelled = []
+        timer = Stub('timer of this request', cancel=Recorder('cancel', fn=lambda it2, a, k: self_cancelled.append(1)))
+        req = new(it, SMODEL, 'SearchRequest', ticket=Sym(tk, 'int'), query='q', results=[], timer=timer)
         reqs.entries.append([Sym(tk, 'int'), req, True])
         at_yield = []
-        it.aio.on_yield = lambda it2, label: at_yield.append((label, reqs.entries[0][2]))
+
+        def on_yield(it2, label):
+            at_yield.append((label, reqs.entries[0][2]))
+            if self_cancelled:
+                raise PyRaise(ExcVal(BUILTIN_CLASSES['CancelledError'], (), {'at': label}))
+        it.aio.on_yield = on_yield
         try:
             run(it, it.getattr(mgr, '_timeout_search_request'), req)
         except PyRaise as pr:
